@@ -305,6 +305,17 @@ def run_predict(case, stt):
         check(a.view(np.ndarray).tobytes() == b.view(np.ndarray).tobytes(), "prediction changed after phasepol/f0/intervals calls: {} -> {}", a, b)
     check(pa.view(np.ndarray).tobytes() == pa2.view(np.ndarray).tobytes(), "array prediction changed after phasepol/f0 calls")
     check(np.array_equal(fa.value, fa2.value), "f0 changed between calls")
+    # a Time array is mutable: the same argument OBJECT edited in place between two calls must be looked up afresh
+    if len(times) >= 2:
+        w = tt.copy()
+        with lib("predictor(time array), array edited in place, predictor(same array object)"):
+            _ = pred(w)
+            w[0] = times[-1]
+            pw = pred(w)
+            fw = pred.f0(w, 0)
+        check_phase(pred_exact(pw)[0], Ts[-1], ents, "time array edited in place (element 0 := last time) and passed again")
+        check(np.ravel(fw.value)[0] == np.ravel(pred.f0(times[-1], 0).value)[0], "f0 of a time array edited in place is stale")
+        stt.label("argument_edited_in_place")
     # outside every span -> ValueError
     ivs = exp_iv
     outside = [ivs[0][0] - 5, ivs[-1][1] + 5] + [(a[1] + b[0]) / 2 for a, b in zip(ivs, ivs[1:]) if b[0] - a[1] > F(1, 100)]
@@ -315,6 +326,11 @@ def run_predict(case, stt):
         must_raise("f0 outside every span", lambda: pred.f0(t_out), (ValueError,))
     mixed = Time([times[0].jd1, t_out.jd1], [times[0].jd2, t_out.jd2], format="jd", scale="utc")
     must_raise("array with one time outside", lambda: pred(mixed), (ValueError,))
+    if len(times) >= 2:
+        w = tt.copy()
+        _ = pred(w)
+        w[0] = t_out
+        must_raise("array edited in place to hold a time outside every span", lambda: pred(w), (ValueError,))
     far = any(abs(T - e.T) > e.half / 4 for T, e in zip(Ts, used))
     stt.nt(len(ents) >= 2 and far and (pc["ncoeff"] % 3 != 0 or any("D" in c or "d" in c for c in pc["entries"][0]["coeffs"])))
     stt.label("mode_" + pc["mode"])
